@@ -210,11 +210,23 @@ def sample_segment(lat1, lon1, lat2, lon2, lat_g, lon_g, M):
     if total == 0.0:
         c = (int(cell_index(lat_g, lat1)), int(cell_index(lon_g, lon1)))
         return [c], {c: 1.0}, 0.0, 0.0
-    for ii, jj, ww in zip(i.tolist(), j.tolist(), w.tolist()):
+    runs = []                         # (cell, first piece index, last piece index)
+    for q, (ii, jj, ww) in enumerate(zip(i.tolist(), j.tolist(), w.tolist())):
         c = (ii, jj)
         if not order or order[-1] != c:
             order.append(c)
+            runs.append([c, q, q])
+        else:
+            runs[-1][2] = q
         shares[c] = shares.get(c, 0.0) + ww / total
+    # the same shares measured the way the code measures them: one great-circle chord per
+    # contiguous stay in a cell (entry point -> exit point)
+    chords = {}
+    for c, a, b in runs:
+        chords[c] = chords.get(c, 0.0) + float(geod_len(la[a], low[a], la[b + 1], low[b + 1]))
+    tot_ch = sum(chords.values())
+    sample_segment.chord_shares = {c: v / tot_ch for c, v in chords.items()} if tot_ch > 0 \
+        else dict(shares)
     seg = float(geod_len(lat1, lon1, lat2, lon2))
     # length of the straight map line itself (limit M -> infinity): Richardson
     # extrapolation from the M- and 2M-piece inscribed polylines
@@ -270,7 +282,12 @@ def make_case(rng, k, M):
               'lats_deg': np.rad2deg(c.lats).round(9).tolist(),
               'lons_deg': np.rad2deg(c.lons).round(9).tolist(),
               'n_state': c.n_state, 'n_integ': c.n_integ}
+    cross = crosses(c.lons)
+    c.cross_seg = int(np.flatnonzero(cross)[0]) if np.any(cross) else None
+    c.n_cross = int(np.count_nonzero(cross))
     c.error = None
+    c.len_ok = True
+    c.input_mutated, c.regrid_differs = [], False
     before = [np.array(x, copy=True) for x in [c.lats, c.lons] + c.state + c.integ]
     try:
         c.out = run_gridder(grid_mod.Gridder, c.lat_g, c.lon_g, c.alt_g, c.tim_g, c.lats,
@@ -307,9 +324,6 @@ def make_case(rng, k, M):
             'cell': (i, j), 'alt': None if ca is None else float(ca[p]),
             'time': None if ct is None else float(ct[p]),
             'state': [float(x[p]) for x in sv[1:]], 'integ': [float(x[p]) for x in iv]})
-    cross = crosses(c.lons)
-    c.cross_seg = int(np.flatnonzero(cross)[0]) if np.any(cross) else None
-    c.n_cross = int(np.count_nonzero(cross))
     return c
 
 
